@@ -62,7 +62,7 @@ UNITS = {
         widths=[16, 8],
         prelude='preludes/grow.rs',
         specs='contracts/grow.vspec',
-        lemmas=[],
+        lemmas=['lemmas/churn_lemmas.rs'],
         extra='grow_rules',
         items=[
             I(RAW, None, 'bucket_mask_to_capacity'),
